@@ -225,9 +225,12 @@ static Rsp t12_osap(Buf *b, uint16_t et, uint32_t ev) {
     Rsp r = run(b); g12_learn_handle(&r); return r;
 }
 
+#include "t12_client.h"
+
 /* =====================================================  C18  ===================================================== */
 
 static long c18_failed_seen;
+static uint32_t c18x_object_handle(void);
 static void c18_trace(const uint8_t *req, uint32_t n, const Rsp *r, uint32_t maxbuf) {
     tr_begin("cmd ret=%u loc=%d maxbuf=%u bufsize=%u len=%u", r->ret, g_locality, maxbuf, r->bufsize, r->len);
     trhex("req", req, n);
@@ -250,7 +253,7 @@ static uint32_t c18_interesting_u32(void) {
     case 1: return 1;
     case 2: return 0xFFFFFFFFu;
     case 3: return rnd(24);
-    case 4: return g12_nsess ? g12_sess[rnd(g12_nsess)] : 0x02000000u;
+    case 4: return chance(60) && g12_nsess ? g12_sess[rnd(g12_nsess)] : c18x_object_handle();
     case 5: return 0x40000000u;             /* TPM_KH_SRK */
     case 6: return 0x40000001u + rnd(6);    /* owner, revoke, transport, operator, admin, EK */
     case 7: return 0x00011200u + rnd(4);    /* NV indices the prefix defined */
@@ -379,6 +382,7 @@ static void c18_one(Buf *b, uint32_t ord) {
     Rsp r = c18_run_raw(b->p, n);
     if (ord == T12_ORD_OIAP || ord == T12_ORD_OSAP) g12_learn_handle(&r);
 }
+#include "scen_tpm12_c18x.h"
 /* health probe: GetTestResult (always allowed) + PCRRead(0) (answers TPM_FAILEDSELFTEST in the failed state) */
 static int c18_health(Buf *b) {
     t12_begin(b, T12_TAG0, T12_ORD_GetTestResult); Rsp g = c18_run(b);
@@ -394,6 +398,7 @@ static void c18_prefix(Buf *b, int h) {
     if (h % 4 == 3) { t12_begin(b, T12_TAG0, T12_ORD_ContinueSelfTest); c18_run(b); }
     t12_begin(b, T12_TAG0, T12_TSC_PhysicalPresence); b_u16(b, 0x20); c18_run(b);
     t12_begin(b, T12_TAG0, T12_TSC_PhysicalPresence); b_u16(b, 0x08); c18_run(b);
+    if (h % 3 == 2) c18x_install_owner(b, h % 12 == 2);          /* EK + SRK (+ one wrapped key): 2-3 RSA key generations */
     if (h % 8 == 5) {                                            /* an endorsement key (one RSA-2048 generation) so that EK paths are live */
         t12_begin(b, T12_TAG0, T12_ORD_CreateEndorsementKeyPair); b_fill(b, 20, 0);
         b_u32(b, 1); b_u16(b, 3); b_u16(b, 1); b_u32(b, 12); b_u32(b, 2048); b_u32(b, 2); b_u32(b, 0);
@@ -419,6 +424,8 @@ static void c18_prefix(Buf *b, int h) {
     t12_begin(b, T12_TAG0, T12_ORD_NV_DefineSpace); t12_nv_public(b, 0x00011204u, 0x10001u, 4200); b_fill(b, 20, 1); c18_run(b);
     { uint32_t mb = tpm12_maxbuf(); int32_t off[] = {-15, -14, -13, 0, 50};
       for (int i = 0; i < 5; i++) { t12_begin(b, T12_TAG0, T12_ORD_NV_ReadValue); b_u32(b, 0x00011204u); b_u32(b, 0); b_u32(b, (uint32_t)((int32_t)mb + off[i])); c18_run(b); } }
+    /* nvLocked in a third of the histories: the NV permission checks are only made then */
+    if (h % 3 == 1) { t12_begin(b, T12_TAG0, T12_ORD_NV_DefineSpace); t12_nv_public(b, 0xFFFFFFFFu, 0, 0); b_fill(b, 20, 1); Rsp r = c18_run(b); if (r.rc == 0) c18x_nvlocked = 1; }
     t12_begin(b, T12_TAG0, T12_ORD_SHA1Start); c18_run(b);
 }
 /* the stream contains PhysicalDisable / SetDeactivated / ForceClear ...: bring the TPM back to enabled+activated
@@ -433,6 +440,7 @@ static int c18_repair(Buf *b) {
     tr("restart ret=%u", ret);
     if (ret != TPM_SUCCESS) return 0;
     g12_nsess = 0;
+    c18x_own.live = c18x_zero.live = c18x_trans.live = 0; c18x_key = 0;      /* sessions and loaded keys are gone */
     t12_begin(b, T12_TAG0, T12_ORD_Startup); b_u16(b, 1); c18_run(b);
     t12_begin(b, T12_TAG0, T12_TSC_PhysicalPresence); b_u16(b, 0x20); c18_run(b);
     t12_begin(b, T12_TAG0, T12_TSC_PhysicalPresence); b_u16(b, 0x08); c18_run(b);
@@ -445,6 +453,7 @@ static void c18_history(int h, void *arg) {
     int ncmds = *(int *)arg;
     Buf b = {0};
     tpm12_fresh();
+    c18x_reset();
     if (h % 3 == 1) TPMLIB_SetBufferSize(3072 + rnd(1025), NULL, NULL); else TPMLIB_SetBufferSize(4096, NULL, NULL);
     tr("fresh maxbuf=%u", tpm12_maxbuf());
     c18_prefix(&b, h);
@@ -461,7 +470,9 @@ static void c18_history(int h, void *arg) {
     for (int i = 0; i < ncmds; i++) {
         if (chance(15)) g_locality = rnd(5);
         if (chance(3)) g_pp = rnd(2);
-        c18_one(&b, c18_pick_ordinal());
+        if (!c18x_step(&b)) c18_one(&b, c18_pick_ordinal());
+        /* the random trailers run into the dictionary-attack timeout: a power cycle now and then lets authorized commands through again */
+        if (c18x_owner && i % 256 == 255 && !c18_repair(&b)) break;
         if (i % 64 == 63) {
             int prc = c18_health(&b);
             /* failed state (not persisted) / disabled / deactivated: power cycle and continue the history */
@@ -469,7 +480,7 @@ static void c18_history(int h, void *arg) {
         }
     }
     c18_health(&b);
-    b_free(&b);
+    b_free(&b); b_free(&c18x_ib); free(c18x_keyblob); c18x_keyblob = NULL;
 }
 static void scen_c18(int histories, int ncmds) {
     Buf b = {0};
@@ -494,7 +505,7 @@ static Rsp c20_run(Buf *b, const char *label) {
     return r;
 }
 static void c20_obs(const char *name, const Rsp *r, const char *extra_fmt, ...) {
-    tr_begin("op name=%s loc=%d ret=%u rc=%u", name, g_locality, r->ret, r->rc);
+    tr_begin("op name=%s loc=%d ret=%u rc=%u stores=%ld", name, g_locality, r->ret, r->rc, g_store_perm_in_cmd);
     if (extra_fmt) { va_list ap; va_start(ap, extra_fmt); fputc(' ', g_tr); vfprintf(g_tr, extra_fmt, ap); va_end(ap); }
     trhex("out", r->len > 10 && r->rc == 0 ? r->p + 10 : NULL, r->len > 10 && r->rc == 0 ? r->len - 10 : 0);
 }
@@ -523,13 +534,15 @@ static void c20_sha(Buf *b, const char *name, uint32_t ord, int with_pcr, uint32
 static void c20_other(Buf *b) {            /* an unrelated ordinal between SHA-1 thread commands */
     if (chance(50)) { t12_begin(b, T12_TAG0, T12_ORD_GetTicks); } else { t12_begin(b, T12_TAG0, T12_ORD_GetRandom); b_u32(b, 4); }
     Rsp r = c20_run(b, "other"); if (r.rc == 0xFFFFFFFF && !r.len) return;
-    tr("op name=other loc=%d ret=%u rc=%u", g_locality, r.ret, r.rc);
+    tr("op name=other loc=%d ret=%u rc=%u stores=%ld", g_locality, r.ret, r.rc, g_store_perm_in_cmd);
 }
-static void c20_startup(Buf *b) {
-    t12_begin(b, T12_TAG0, T12_ORD_Startup); b_u16(b, 1);
-    Rsp r = c20_run(b, "startup"); if (r.rc == 0xFFFFFFFF && !r.len) return;
-    c20_obs("startup", &r, NULL); tr_end();
+static uint32_t c20_startup_st(Buf *b, uint16_t st) {
+    t12_begin(b, T12_TAG0, T12_ORD_Startup); b_u16(b, st);
+    Rsp r = c20_run(b, "startup"); if (r.rc == 0xFFFFFFFF && !r.len) return r.rc;
+    c20_obs("startup", &r, "st=%u", st); tr_end();
+    return r.rc;
 }
+static void c20_startup(Buf *b) { c20_startup_st(b, 1); }
 static void c20_estget(void) {
     TPM_BOOL e = 0; TPM_RESULT ret = TPM_IO_TpmEstablished_Get(&e);
     tr("op name=estget loc=%d ret=0 rc=%u out=%02x", g_locality, ret, e ? 1 : 0);
@@ -538,6 +551,7 @@ static void c20_rand_bytes(uint8_t *d, uint32_t n) {
     int mode = rnd(8);
     for (uint32_t i = 0; i < n; i++) d[i] = mode == 0 ? 0 : mode == 1 ? 0xff : (uint8_t)rnd64();
 }
+#include "scen_tpm12_nv.h"
 static void c20_sha_thread(Buf *b) {
     static uint8_t d[8192];
     c20_sha(b, "sha1start", T12_ORD_SHA1Start, 0, 0, NULL, 0);
@@ -560,8 +574,9 @@ static void c20_sha_thread(Buf *b) {
 static void c20_tis_hash(int complete) {
     static uint8_t d[4096];
     if (iso_before("TPM_IO_Hash_Start", 17)) return;
+    long st0 = g_store_calls;
     TPM_RESULT ret = TPM_IO_Hash_Start(); iso_after();
-    tr("op name=hashstart loc=%d ret=0 rc=%u out=-", g_locality, ret);
+    tr("op name=hashstart loc=%d ret=0 rc=%u stores=%ld out=-", g_locality, ret, g_store_calls - st0);
     int nd = rnd(5);
     for (int i = 0; i < nd; i++) {
         uint32_t n = chance(80) ? rnd(200) : rnd(4096);
@@ -580,13 +595,64 @@ static void c20_history(int h, void *arg) {
     Buf b = {0};
     uint8_t d[20] = {0};
     tpm12_fresh();
+    c20nv_reset_notes();
     if (h % 3 == 2) TPMLIB_SetBufferSize(3072 + 64 * rnd(17), NULL, NULL); else TPMLIB_SetBufferSize(4096, NULL, NULL);
     tr("power maxbuf=%u", tpm12_maxbuf());
-    if (h % 7 == 6) { c20_pcrread(&b, 0); c20_extend(&b, 0, d); if (chance(50)) c20_tis_hash(1); }   /* before Startup */
+    if (h % 7 == 6) { c20_pcrread(&b, 0); c20_extend(&b, 0, d); if (chance(50)) c20_tis_hash(1); c20nv_read(&b, 0x00011200u, 0, 4); c20nv_tscpp(&b, 0x20); }   /* before Startup */
     c20_startup(&b);
+    /* NV storage: two histories out of three mix NV commands into the PCR/SHA-1 stream; the usual preparation
+       (command presence enabled and asserted, a first area) comes first in most of them */
+    int nvpct = (h % 3 == 0) ? 0 : (h % 3 == 1) ? 45 : 75;
+    if (nvpct && chance(80)) { c20nv_tscpp(&b, 0x20); c20nv_tscpp(&b, 0x08); c20nv_define(&b, 0x00011200u, NVP_PPWRITE | NVP_WRITEDEFINE, 16, 0x1f, 0x1f); }
+    if (nvpct && chance(35)) c20nv_define(&b, T12_NV_INDEX_LOCK, 0, 0, 0x1f, 0x1f);
+    if (h % 8 == 4 || h % 8 == 7) { nvpct = 70; c20nv_install_owner(&b); if (chance(70)) c20nv_define(&b, T12_NV_INDEX_LOCK, 0, 0, 0x1f, 0x1f); }   /* two RSA key generations */
     int n = 10 + rnd(maxops), tis_open = 0;
     for (int i = 0; i < n; i++) {
         if (chance(20)) g_locality = rnd(5);
+        if (nvpct && chance((uint32_t)nvpct)) {
+            long before = g_store_calls;
+            if (c20nv_owner && chance(25)) c20ctr_random(&b);
+            else if (c20nv_owner && chance(50)) c20nv_random_owner(&b); else c20nv_random(&b);
+            /* a power cycle / suspend-resume placed immediately after the command, mostly when it wrote storage or set a
+               lock (so that no later command re-writes the permanent state first) */
+            if (chance(g_store_calls != before ? 12 : 3)) {
+                if (tis_open) continue;
+                int kind = rnd(10);
+                if (kind < 5) {                                                     /* power cycle, Startup(ST_CLEAR) */
+                    TPMLIB_Terminate(); TPM_RESULT ret = TPMLIB_MainInit();
+                    tr("restart ret=%u maxbuf=%u", ret, tpm12_maxbuf());
+                    if (ret != TPM_SUCCESS) { b_free(&b); return; }
+                    if (chance(20)) { c20nv_read(&b, c20nv_pool_index(rnd(C20NV_POOL)), 0, 1); c20nv_tscpp(&b, 0x08); }   /* before Startup */
+                    c20_startup(&b);
+                    if (chance(10)) c20_startup_st(&b, 1 + rnd(2));                 /* a second Startup is refused */
+                } else if (kind < 8) {                                              /* TPM_SaveState, power cycle, Startup(ST_STATE) */
+                    c20nv_savestate(&b);
+                    if (chance(15)) c20nv_getpub(&b, 0x00011200u);                  /* any command invalidates the saved state */
+                    TPMLIB_Terminate(); TPM_RESULT ret = TPMLIB_MainInit();
+                    tr("restart ret=%u maxbuf=%u", ret, tpm12_maxbuf());
+                    if (ret != TPM_SUCCESS) { b_free(&b); return; }
+                    if (c20_startup_st(&b, 2) != 0) {                               /* no saved state: failed state until the next power cycle */
+                        c20nv_read(&b, 0x00011200u, 0, 1); c20_pcrread(&b, 0);
+                        TPMLIB_Terminate(); ret = TPMLIB_MainInit();
+                        tr("restart ret=%u maxbuf=%u", ret, tpm12_maxbuf());
+                        if (ret != TPM_SUCCESS) { b_free(&b); return; }
+                        c20_startup(&b);
+                    }
+                } else {                                                            /* suspend / resume through the state blobs */
+                    unsigned char *blob[2] = {0}; uint32_t len[2] = {0}; TPM_RESULT ret = 0;
+                    enum TPMLIB_StateType ty[2] = {TPMLIB_STATE_PERMANENT, TPMLIB_STATE_VOLATILE};
+                    for (int k = 0; k < 2; k++) ret |= TPMLIB_GetState(ty[k], &blob[k], &len[k]);
+                    TPMLIB_Terminate();
+                    for (int k = 0; k < 2; k++) ret |= TPMLIB_SetState(ty[k], blob[k], len[k]);
+                    ret |= TPMLIB_MainInit();
+                    for (int k = 0; k < 2; k++) free(blob[k]);
+                    tr("resume ret=%u", ret);
+                    if (ret != TPM_SUCCESS) { b_free(&b); return; }
+                }
+                c20nv_audit(&b);
+            }
+            continue;
+        }
         switch (rnd(20)) {
         case 0: case 1: case 2: case 3: case 4:
             c20_rand_bytes(d, 20); c20_extend(&b, chance(92) ? rnd(24) : (chance(50) ? 24 + rnd(8) : (uint32_t)rnd64()), d); break;
@@ -611,8 +677,9 @@ static void c20_history(int h, void *arg) {
             c20_estget(); break;
         case 16: {
             if (iso_before("TPM_IO_TpmEstablished_Reset", 27)) break;
+            long st0 = g_store_calls;
             TPM_RESULT ret = TPM_IO_TpmEstablished_Reset(); iso_after();
-            tr("op name=estreset loc=%d ret=0 rc=%u out=-", g_locality, ret); c20_estget(); break; }
+            tr("op name=estreset loc=%d ret=0 rc=%u stores=%ld out=-", g_locality, ret, g_store_calls - st0); c20_estget(); break; }
         case 17: {  /* power cycle: permanent state from storage, PCRs back to their initial values */
             if (!chance(30)) { c20_rand_bytes(d, 20); c20_extend(&b, 16 + rnd(8), d); break; }   /* MainInit is slow (self tests) */
             TPMLIB_Terminate(); TPM_RESULT ret = TPMLIB_MainInit();
@@ -648,6 +715,7 @@ static void c20_history(int h, void *arg) {
         if (ret == TPM_SUCCESS) { c20_startup(&b); c20_pcrread(&b, 3); c20_pcrread(&b, 17); }
     }
     for (uint32_t i = 0; i < 24; i++) c20_pcrread(&b, i);
+    if (nvpct) c20nv_audit(&b);
     b_free(&b);
 }
 static void scen_c20(int histories, int maxops) {
@@ -685,10 +753,11 @@ static Rsp c19_cmd(Buf *b, const char *name) {
     return r;
 }
 /* read-only battery: digest of the answers of a fixed list of read-only commands */
+static int c19_battery_skip_resettable;      /* the battery around TPM_SaveState / Startup(ST_STATE) leaves out the resettable PCRs 16..23 */
 static void c19_battery(Buf *b, const char *phase) {
     SHA_CTX c; SHA1_Init(&c); int n = 0, fails = 0;
 #define BAT() do { b_put32(b, 2, (uint32_t)b->n); Rsp r = run_raw(b->p, (uint32_t)b->n); SHA1_Update(&c, r.p, r.len); n++; if (r.rc) fails++; } while (0)
-    for (uint32_t i = 0; i < 24; i++) { t12_begin(b, T12_TAG0, T12_ORD_PcrRead); b_u32(b, i); BAT(); }
+    for (uint32_t i = 0; i < (c19_battery_skip_resettable ? 16u : 24u); i++) { t12_begin(b, T12_TAG0, T12_ORD_PcrRead); b_u32(b, i); BAT(); }
     static const uint32_t caps[][2] = {{4, 0x108}, {4, 0x109}, {5, 0x101}, {5, 0x103}, {5, 0x104}, {5, 0x107}, {5, 0x10C}, {5, 0x10F}, {5, 0x110},
                                        {5, 0x111}, {5, 0x114}, {5, 0x117}, {5, 0x122}, {5, 0x123}, {5, 0x124}, {0x1A, 0}, {0xD, 0}, {0x19, 0}};
     for (size_t k = 0; k < sizeof caps / sizeof caps[0]; k++) {
@@ -701,7 +770,11 @@ static void c19_battery(Buf *b, const char *phase) {
         t12_begin(b, T12_TAG0, T12_ORD_NV_ReadValue); b_u32(b, 0x00011200u + i); b_u32(b, 0); b_u32(b, 8); BAT();
     }
     for (uint32_t i = 0; i < 4; i++) { t12_begin(b, T12_TAG0, T12_ORD_ReadCounter); b_u32(b, i); BAT(); }
-    t12_begin(b, T12_TAG0, T12_ORD_GetCapability); b_u32(b, 0x14); b_u32(b, 4); b_u32(b, 2); BAT();   /* loaded auth session handles */
+    for (uint32_t rt = 1; rt <= 6; rt++) {                     /* handle lists: keys, auth sessions, transport sessions, ..., counters */
+        if (rt == 3 || rt == 5) continue;
+        t12_begin(b, T12_TAG0, T12_ORD_GetCapability); b_u32(b, 0x14); b_u32(b, 4); b_u32(b, rt); BAT();
+    }
+    t12_begin(b, T12_TAG0, T12_ORD_GetCapability); b_u32(b, 0x07); b_u32(b, 0); BAT();                   /* TPM_CAP_KEY_HANDLE */
 #undef BAT
     uint8_t md[20]; SHA1_Final(md, &c);
     tr_begin("battery phase=%s n=%d errors=%d", phase, n, fails); trhex("sha", md, 20); tr_end();
@@ -726,6 +799,15 @@ static int c19_suspend_resume(Buf *b) {
     }
     tr("resume get=%u/%u/%u set=%u/%u/%u maininit=%u storage=%d eqperm=%d eqvol=%d eqsave=%d lens=%u/%u/%u", g[0], g[1], g[2], sres[0], sres[1], sres[2], mi,
        with_storage, eq[0], eq[1], eq[2], len[0], len[1], len[2]);
+    /* the blobs RE-TAKEN after the resume must be accepted as well (second resume from them) */
+    if (mi == TPM_SUCCESS && ar[0] == TPM_SUCCESS && ar[1] == TPM_SUCCESS && ar[2] == TPM_SUCCESS && chance(25)) {
+        TPM_RESULT s2[3], mi2 = 0xFFFF;
+        TPMLIB_Terminate();
+        for (int k = 0; k < 3; k++) s2[k] = TPMLIB_SetState(c19_ty[k], after[k], alen[k]);
+        if (!iso_before("MainInit-after-second-SetState", 30)) { mi2 = TPMLIB_MainInit(); iso_after(); }
+        tr("resume get=0/0/0 set=%u/%u/%u maininit=%u storage=%d eqperm=1 eqvol=1 eqsave=1 lens=%u/%u/%u second=1", s2[0], s2[1], s2[2], mi2, with_storage, alen[0], alen[1], alen[2]);
+        mi = mi2;
+    }
     for (int k = 0; k < 3; k++) { free(blob[k]); free(after[k]); }
     if (mi != TPM_SUCCESS) return 0;
     c19_battery(b, "after");
@@ -745,6 +827,88 @@ static int c19_powercut(Buf *b) {
     t12_begin(b, T12_TAG0, T12_ORD_Startup); b_u16(b, 1); c19_cmd(b, "startup");
     char live[48], stored[48]; c19_live_perm(live); c19_stored_perm(stored);
     tr("sync live=%s stored=%s", live, stored);
+    return 1;
+}
+/* TPM_SaveState, power cycle, TPM_Startup(ST_STATE): the saved state must be accepted and the resumed TPM must answer the
+ * battery (without the resettable PCRs) as before */
+static int c19_savestate_restart(Buf *b) {
+    c19_battery_skip_resettable = 1; c19_battery(b, "sbefore"); c19_battery_skip_resettable = 0;
+    t12_begin(b, T12_TAG0, T12_ORD_SaveState); Rsp r = c19_cmd(b, "savestate");
+    if (r.rc != 0) return 1;
+    TPMLIB_Terminate();
+    blob_clear(&g_store[ST_VOL]);
+    if (iso_before("MainInit-after-savestate", 24)) return 0;
+    TPM_RESULT mi = TPMLIB_MainInit(); iso_after();
+    tr("restart ret=%u", mi);
+    if (mi != TPM_SUCCESS) return 0;
+    if (getenv("VERIF_DEBUG_STSTATE")) { int fd = open(getenv("VERIF_DEBUG_STSTATE"), O_WRONLY | O_CREAT | O_APPEND, 0600); TPMLIB_SetDebugFD(fd); TPMLIB_SetDebugLevel(10); }
+    t12_begin(b, T12_TAG0, T12_ORD_Startup); b_u16(b, 2); r = c19_cmd(b, "startup-state");
+    if (getenv("VERIF_DEBUG_STSTATE")) TPMLIB_SetDebugLevel(0);
+    tr("ststate rc=%u", r.rc);
+    { char live[48], stored[48]; c19_live_perm(live); c19_stored_perm(stored); tr("sync live=%s stored=%s", live, stored); }
+    if (r.rc != 0) {                                            /* refused saved state: the TPM is in its failed state; start over from storage */
+        TPMLIB_Terminate(); mi = TPMLIB_MainInit(); tr("restart ret=%u", mi);
+        if (mi != TPM_SUCCESS) return 0;
+        t12_begin(b, T12_TAG0, T12_ORD_Startup); b_u16(b, 1); c19_cmd(b, "startup");
+        char live[48], stored[48]; c19_live_perm(live); c19_stored_perm(stored); tr("sync live=%s stored=%s", live, stored);
+        return 1;
+    }
+    c19_battery_skip_resettable = 1; c19_battery(b, "safter"); c19_battery_skip_resettable = 0;
+    return 1;
+}
+/* an owner (EK + SRK: two RSA key generations), a counter pair, transport sessions */
+static int c19_owner; static uint32_t c19_counters[6]; static int c19_ncounters;
+static void c19_install_owner(Buf *b) {
+    static const uint8_t own[20] = {9, 8, 7, 6, 5, 4, 3, 2, 1, 0, 9, 8, 7, 6, 5, 4, 3, 2, 1, 0}, srk[20] = {0};
+    t12c_run = c19_cmd; memset(&g12c, 0, sizeof g12c);
+    if (t12c_create_ek(b) != 0) return;
+    if (t12c_take_ownership(b, own, srk) != 0) return;
+    c19_owner = 1;
+}
+/* holes in the handle tables: open several sessions / objects, remove an EARLIER one, then suspend or save the state at once */
+static int c19_holes(Buf *b) {
+    static const uint8_t cauth[20] = {0xC0, 1, 2, 3, 4, 5, 6, 7, 8, 9, 10, 11, 12, 13, 14, 15, 16, 17, 18, 19};
+    T12cSess s[3]; int n = 0;
+    t12c_run = c19_cmd;
+    for (int i = 0; i < 3; i++) {                               /* TPM_MIN_AUTH_SESSIONS = 3 */
+        uint32_t rc;
+        if (c19_owner && chance(40)) rc = t12c_osap(b, &s[n], T12C_ET_OWNER, T12C_KH_OWNER, g12c.ownerAuth);
+        else if (chance(30)) { uint8_t z[20] = {0}; rc = t12c_osap(b, &s[n], T12C_ET_NV, 0x00011200u, z); }
+        else { rc = t12c_oiap(b, &s[n]); if (rc == 0 && c19_owner) memcpy(s[n].secret, g12c.ownerAuth, 20); }
+        if (rc == 0) n++;
+    }
+    if (n >= 2) {
+        int victim = rnd(n - 1);                                /* never the last one: a hole, not a shorter table */
+        switch (rnd(c19_owner ? 3 : 2)) {
+        case 0: t12c_flush_specific(b, s[victim].handle, 2); break;          /* TPM_RT_AUTH */
+        case 1: t12c_terminate_handle(b, s[victim].handle); break;
+        default:                                                /* an owner-authorized command with continueAuthSession = FALSE */
+            t12_begin(b, T12_TAG1, T12_ORD_NV_ReadValue); b_u32(b, 0x10000001u); b_u32(b, 0); b_u32(b, 20);
+            t12c_finish1(b, "nvread-dir-owner", 0, 0, &s[victim], NULL, 0, 0, 0, NULL, NULL); break;
+        }
+        tr("holes kind=auth open=%d victim=%d", n, victim);
+    }
+    if (c19_owner) {
+        if (chance(50)) {                                       /* transport sessions: TPM_MIN_TRANS_SESSIONS = 3 */
+            T12cSess t[3]; int nt = 0;
+            for (int i = 0; i < 3; i++) if (t12c_establish_transport_attr(b, &t[nt], chance(70) ? 0 : T12C_TRANSPORT_LOG) == 0) nt++;
+            if (nt >= 2) { int v = rnd(nt - 1); t12c_flush_specific(b, t[v].handle, 4); tr("holes kind=trans open=%d victim=%d", nt, v); }
+        }
+        if (chance(50) && c19_ncounters < 2) {                  /* counters: create two, release the first */
+            uint32_t v = 0, id = 0;
+            if (t12c_counter_create(b, cauth, (const uint8_t *)"cnt0", &id, &v, 0, NULL) == 0) c19_counters[c19_ncounters++] = id;
+            if (t12c_counter_create(b, cauth, (const uint8_t *)"cnt1", &id, &v, 0, NULL) == 0) c19_counters[c19_ncounters++] = id;
+            if (c19_ncounters >= 2) {
+                if (chance(50)) t12c_counter_release_owner(b, NULL, c19_counters[0], 0, NULL); else t12c_counter_release(b, NULL, c19_counters[0], cauth, 0, NULL);
+                tr("holes kind=counter n=%d", c19_ncounters);
+                memmove(c19_counters, c19_counters + 1, sizeof c19_counters[0] * (size_t)(--c19_ncounters));
+            }
+        }
+    }
+    int ok = chance(55) ? c19_suspend_resume(b) : c19_savestate_restart(b);
+    if (!ok) return 0;
+    /* the survivors are still usable, the removed one is not: closing them all must answer the same way as it would have */
+    for (int i = 0; i < n; i++) t12c_terminate_handle(b, s[i].handle);
     return 1;
 }
 /* blob mutations through SetState: every mutant must be rejected or accepted without a memory error; afterwards a
@@ -883,9 +1047,12 @@ static void c19_history(int h, void *arg) {
     t12_begin(&b, T12_TAG0, T12_TSC_PhysicalPresence); b_u16(&b, 0x20); c19_cmd(&b, "tscpp");
     t12_begin(&b, T12_TAG0, T12_TSC_PhysicalPresence); b_u16(&b, 0x08); c19_cmd(&b, "tscpp");
     t12_begin(&b, T12_TAG0, T12_ORD_NV_DefineSpace); t12_nv_public(&b, 0x00011200u, 0x10001, 24); b_fill(&b, 20, 1); c19_cmd(&b, "nvdefine");
+    c19_owner = 0; c19_ncounters = 0;
+    if (h % 10 == 2 || h % 10 == 7) c19_install_owner(&b);      /* two RSA key generations */
     for (int i = 0; i < nops; i++) {
         int k = rnd(100);
-        if (k < 78) c19_random_cmd(&b);
+        if (k < 4) { if (!c19_holes(&b)) break; }
+        else if (k < 78) c19_random_cmd(&b);
         else if (k < 84) { if (!c19_suspend_resume(&b)) break; }
         else if (k < 88) { if (!c19_powercut(&b)) break; }
         else if (k < 92) { if (!c19_mutations(&b, 25)) break; }
@@ -922,6 +1089,14 @@ static void scen_replay12(const char *path) {
             tr("fresh maxbuf=%u", tpm12_maxbuf());
         } else if (!strncmp(line, "restart", 7) && live) {
             TPMLIB_Terminate(); tr("restart ret=%u", TPMLIB_MainInit());
+        } else if (!strncmp(line, "resume", 6) && live) {        /* suspend/resume through the three state blobs */
+            unsigned char *blob[3] = {0}; uint32_t len[3] = {0}; TPM_RESULT ret = 0;
+            for (int k = 0; k < 3; k++) ret |= TPMLIB_GetState(c19_ty[k], &blob[k], &len[k]);
+            TPMLIB_Terminate();
+            for (int k = 0; k < 3; k++) ret |= TPMLIB_SetState(c19_ty[k], blob[k], len[k]);
+            ret |= TPMLIB_MainInit();
+            for (int k = 0; k < 3; k++) free(blob[k]);
+            tr("resume ret=%u", ret);
         } else if (!strncmp(line, "cmd ", 4) && live) {
             char *q = strstr(line, " req="), *l = strstr(line, " loc=");
             if (!q) continue;
